@@ -379,6 +379,10 @@ func judge(d *lib.Driver, in []byte, idx int, runs []ran, model map[string]model
 		desc["other_entry"] = b.spec.name()
 		desc["other_impl"] = b.o.String()
 		cls := "chunking:" + r.spec.name()
+		if b.o.Kind == "bom" && tie(model[r.mkey], r.o, r.spec) == "" && tie(model[b.mkey], b.o, b.spec) == "" {
+			addKnown("C03sen-bom-bytes", cls+":C03sen-bom-bytes", "0xEF that is not a byte order mark: 'expected BOM' from a []byte, a token from a reader", in, desc)
+			continue
+		}
 		id, set, err := explainByRepair(d, in, *b, *r, true)
 		if err != nil {
 			return err
